@@ -11,7 +11,8 @@ def signature(m):
     if m["kind"] == "classification":
         return {"kind": "classification", "path": m["path"], "node00": m["node"] == "zoneA", "what": m["detail"].split(" addr=")[0]}
     if m["kind"] == "qiout":
-        return {"kind": "qiout", "wellformed": m["path"] == "len20", "expected": m["expected"], "got": m["got"]}
+        fc = m["detail"].split(" ")[0].split("=")[-1] if m["detail"].startswith("follows-cropped=") else "n/a"
+        return {"kind": "qiout", "wellformed": m["path"] == "len20", "expected": m["expected"], "got": m["got"], "follows_cropped": fc.lower() != "false"}
     if m["kind"] in ("trie-extra", "trie-missing"):
         return {"kind": m["kind"], "via": m["path"]}
     return {"kind": m["kind"], "via": m["path"], "expected": m["expected"], "got": m["got"]}
